@@ -24,7 +24,11 @@ pub struct Unit {
 }
 
 pub fn units(level: usize) -> Vec<Unit> {
-	gen::schema_alphabet(level).into_iter().enumerate().map(|(id, schema)| Unit { id, schema }).collect()
+	// the shared alphabet, then (C01 only: they exercise the serializer's union lookup, which the
+	// decoding checks do not depend on) every ordered triple of representative branch kinds
+	let mut schemas = gen::schema_alphabet(level);
+	schemas.extend(gen::triple_unions(&mut gen::Names(500_000)));
+	schemas.into_iter().enumerate().map(|(id, schema)| Unit { id, schema }).collect()
 }
 
 /// One leaf: a value of the unit's schema; all styles x modes x input paths are executed.
@@ -42,6 +46,12 @@ pub fn run_leaf(u: &Unit, crate_schema: &serde_avro_fast::Schema, env: &Env, ch:
 	let mut encodings: Vec<Vec<u8>> = Vec::new();
 	for (si, (us, rs)) in STYLES.iter().enumerate() {
 		let p = gen::pres_of(&v, &u.schema, env, *us, *rs);
+		if gen::take_undesignatable() {
+			// two branches share the name the crate would be addressed with: no presentation
+			// determines the branch (DESIGN.md §7)
+			cover.count("values_not_designatable_by_type_or_name", 1);
+			continue;
+		}
 		cover.impl_runs += 1;
 		let bytes = match subj::ser(crate_schema, &p) {
 			Out::Ok(b) => b,
